@@ -29,7 +29,7 @@ ASSUMPTIONS = ["Rust semantics of Vec/usize as modelled (checked indexing, debug
                "the sampled cases are where model and code were compared; the theorems are about the model",
                "eval / derivative / derivative_at of the EMPTY polynomial panic in code and model (unwrap of degree()); "
                "'the empty polynomial acts as zero' is read as a statement about sums and products (DESIGN 7, C11)"]
-UNPROVED = ["round two: peval_backward_error / peval_forward_error (Horner, gamma_2d) in the standard model and at binary64; otherwise rounding for inexact coefficients is outside the property; the float tier is bit-compared with the primitive-float instance of the same Gallina functions",
+UNPROVED = ["the clause 'holds exactly for exactly-representable coefficients' is proved at binary64 (block polyexact of Props/C11.v) for integer-valued f64 and Gaussian-integer Complex<f64> coefficients with bounds in terms of the inputs (poly_ops_exact_float, peval_exact_float, the evaluation-homomorphism and derivative laws as equalities of floats): bit for bit for the additive laws, derivative linearity and the product rule; for negation, scaling and products under f64 == only (a zero can differ in sign: eval(-p) 1 = +0 but -(eval p 1) = -0 for p = 1 - x, pinned as a refuted witness); NOT proved: closed-form input bounds for pderiv_n and for the product / derivative laws (only the 'exact results fit below 2^53' form), dyadic non-integer coefficients; for inexact coefficients peval_backward_error / peval_forward_error (Horner, gamma_2d); the float tier is bit-compared with the primitive-float instance of the same Gallina functions",
             "operand non-mutation and owned = borrowed operator forms are run-time observations of the executor (a value model satisfies them vacuously)"]
 
 MANIFEST = dict(
